@@ -137,6 +137,31 @@ structure Pres where
 
 def Pres.stripProof (vp : Pres) : Pres := { vp with proof := .absent, nProofs := 0, signerVM := "", proofDecodes := true }
 
+/-! ## the trust store (vcr/trust/trust.go): per credential type the LIST of issuers the YAML file holds — a list, not a set:
+    `AddTrust` never creates duplicates, but the file is plain YAML that operators edit / merge -/
+
+abbrev TrustStore := List (String × List String)
+
+def trustList (s : TrustStore) (t : String) : List String := (alGet s t).getD []
+
+/-- Config.IsTrusted -/
+def isTrusted (s : TrustStore) (t i : String) : Bool := (trustList s t).contains i
+
+/-- Config.AddTrust (then save: the file is the store) -/
+def addTrust (s : TrustStore) (t i : String) : TrustStore :=
+  if isTrusted s t i then s else alPut s t (trustList s t ++ [i])
+
+/-- Config.RemoveTrust: a new slice of length len-1 receives every entry that differs from the issuer; with duplicates of
+    the issuer fewer entries are copied and the tail keeps Go's zero value "" -/
+def removeTrust (s : TrustStore) (t i : String) : TrustStore :=
+  if !isTrusted s t i then s else
+  let l := trustList s t
+  let kept := l.filter (fun x => x != i)
+  alPut s t (kept ++ List.replicate (l.length - 1 - kept.length) "")
+
+/-- Config.Load into a config: yaml.Unmarshal into the map replaces the lists of the types the file names -/
+def loadTrust (s : TrustStore) (file : TrustStore) : TrustStore := file.foldl (fun acc p => alPut acc p.1 p.2) s
+
 /-! ## environment: state of the verifying node + contracts of libraries -/
 
 /-- a resolved DID document: the `assertionMethod` relationships in document order -/
